@@ -310,20 +310,31 @@ class Parameters:
     def update_parameter_expression(self):
         """Update all parameters which have an expression.
 
+        An expression can reference parameters which have an expression themselves and which
+        may be declared later, so a single pass in declaration order could evaluate it with a
+        stale value. The pass is therefore repeated until no value changes anymore. Without
+        cyclic references this takes at most one pass per parameter with an expression.
+
         Raises
         ------
         ValueError
             Raised if an expression evaluates to a non-numeric value.
         """
-        for parameter in self.all():
-            if parameter.expression is not None:
+        expression_parameters = [p for p in self.all() if p.expression is not None]
+        for _ in expression_parameters:
+            changed = False
+            for parameter in expression_parameters:
                 value = self._evaluator(parameter.transformed_expression)
                 if not isinstance(value, (int, float)):
                     raise ValueError(
                         f"Expression '{parameter.expression}' of parameter '{parameter.label}' "
                         f"evaluates to non numeric value '{value}'."
                     )
+                if value != parameter.value:
+                    changed = True
                 parameter.value = value
+            if not changed:
+                break
 
     def get_label_value_and_bounds_arrays(
         self, exclude_non_vary: bool = False
